@@ -132,7 +132,9 @@ Fixpoint auth_loop {S} (m : mech S) (active : bool) (name : bytes) (s : S) (code
 (* the deferred function of Auth *)
 Definition deferred {S} (log_auth_data : bool) (f : final S) : final S :=
   {| f_res := f_res f; f_state := f_state f; f_out := f_out f;
-     f_active := if Gen.smtp_auth_deactivation_deferred then (if log_auth_data then f_active f else false) else f_active f;
+     f_active := if Gen.smtp_auth_deactivation_deferred
+                 then (if Gen.smtp_auth_defer_unconditional then false else if log_auth_data then f_active f else false)
+                 else f_active f;
      f_closed := f_closed f; f_rest := f_rest f |}.
 
 (* smtp.Client.Auth; [active0] = c.authIsActive on entry (false for a client that is not inside Auth) *)
@@ -145,6 +147,26 @@ Definition auth {S} (m : mech S) (log_auth_data : bool) (active0 : bool) (s : S)
     | (s', Some (name, resp)) =>
         let resp64 := match resp with Some r => b64enc r | None => [] end in
         (* strings.TrimSpace(fmt.Sprintf("AUTH %s %s", mech, resp64)) *)
+        let line := if match resp64 with [] => true | _ => false end then bs "AUTH " ++ name
+                    else bs "AUTH " ++ name ++ bs " " ++ resp64 in
+        match script with
+        | Reply c mm :: rest => auth_loop m active name s' c mm rest (cmd_out active line (Reply c mm) o0)
+        | _ => {| f_res := AErrIO; f_state := s'; f_out := cmd_out active line RBad o0; f_active := active;
+                  f_closed := false; f_rest := tl script |}
+        end
+    end.
+
+(* Auth when c.logAuthData is changed while it runs (SetLogAuthData from the mechanism or another goroutine): [lad_entry]
+   is the value read on entry, [lad_exit] the value the deferred function reads.  Between the two only authIsActive
+   decides about redaction, and Auth is its only writer (Gen.smtp_authIsActive_writers).  auth_x m l l = auth m l. *)
+Definition auth_x {S} (m : mech S) (lad_entry lad_exit : bool) (active0 : bool) (s : S) (script : list reply) : final S :=
+  let active := if Gen.smtp_auth_entry_opens lad_entry true then true else active0 in
+  let o0 := {| o_sent := []; o_log := [] |} in
+  deferred lad_exit
+    match m_start m s with
+    | (s', None) => quit_only active AErrStart s' script o0
+    | (s', Some (name, resp)) =>
+        let resp64 := match resp with Some r => b64enc r | None => [] end in
         let line := if match resp64 with [] => true | _ => false end then bs "AUTH " ++ name
                     else bs "AUTH " ++ name ++ bs " " ++ resp64 in
         match script with
